@@ -244,6 +244,40 @@ func firstLines(s string, n int) string {
 	return strings.Join(ls, "\n")
 }
 
+// Retry re-runs the given undecided obligations once more, a few at a time and with a longer time limit (the machine is
+// no longer busy with the rest of the check).  A timeout under load must not turn into an alarm; a real violation stays
+// undecided (or is refuted) and is reported after the retry.
+func Retry(results []*ObResult, cfg *SolverCfg, longTimeout int, maxRetry int) int {
+	var idx []int
+	for i, r := range results {
+		if r != nil && r.Verdict == "undecided" && r.Script != "" && r.Ob != nil {
+			idx = append(idx, i)
+		}
+	}
+	if len(idx) == 0 || len(idx) > maxRetry {
+		return 0
+	}
+	c2 := *cfg
+	c2.LongTimeout = longTimeout
+	c2.QuickTimeout = 30
+	var wg sync.WaitGroup
+	sem := make(chan struct{}, 3)
+	for _, i := range idx {
+		wg.Add(1)
+		sem <- struct{}{}
+		go func(i int) {
+			defer wg.Done()
+			defer func() { <-sem }()
+			first := results[i]
+			r := decide(first.Ob, first.Script, &c2)
+			r.Seconds += first.Seconds
+			results[i] = r
+		}(i)
+	}
+	wg.Wait()
+	return len(idx)
+}
+
 // Discharge runs all obligations of the given function results in parallel.
 func Discharge(frs []*FuncResult, cfg *SolverCfg) []*ObResult {
 	type job struct {
